@@ -180,7 +180,11 @@ STYLES = {
     "mixed": dict(cr=b"cOnTeNt-RaNgE", before=[b"content-type: text/plain"]),
     "spaces": dict(sp=True),
     "nolead": dict(nolead=True),
+    # part headers longer than 512 / 1024 bytes
+    "long600": dict(before=[b"X-Foo-%02d: " % i + b"v" * 40 for i in range(8)], after=[b"X-Bar: " + b"w" * 120]),
+    "long1500": dict(before=[b"X-Foo-%02d: " % i + b"v" * 60 for i in range(14)], after=[b"X-Bar-%d: " % i + b"w" * 90 for i in range(4)]),
 }
+LONG_STYLES = ("long600", "long1500")
 
 
 def mp_body(boundary, parts, total, style="plain"):
@@ -203,9 +207,9 @@ def mp_body(boundary, parts, total, style="plain"):
     return out
 
 
-def ct_header(boundary, quoted=False, extra=b""):
+def ct_header(boundary, quoted=False, extra=b"", name=b"Content-Type: "):
     b = b'"' + boundary + b'"' if quoted else boundary
-    return b"Content-Type: multipart/byteranges; boundary=" + b + extra + b"\r\n"
+    return name + b"multipart/byteranges; boundary=" + b + extra + b"\r\n"
 
 
 def response(c_chunks, ridx, doff, mode, boundary=b"00000000000000000023", style="plain", quoted=False,
@@ -298,7 +302,7 @@ def gen_cases(tier, rng):
         chunks = [(l, 1 if (j == k and n > 2) else 0, sd) for j, (l, f, sd) in enumerate(chunks)]
         ridx, _ = auto_ridx(chunks, 24)
         mode = "plain" if (i == 0 and len(runs_of(ridx, chunks)) == 1) else "mp"
-        style = rng.choice(list(STYLES))
+        style = rng.choice([k for k in STYLES if k not in LONG_STYLES])
         b = rng.choice(BOUNDARIES_PLAIN[:3] + BOUNDARIES_META[:4])
         hdrs, body = response(chunks, ridx, 24, mode, boundary=b, style=style, quoted=rng.random() < 0.4)
         small.append((i, chunks, ridx, hdrs, body, mode, style, b))
@@ -312,7 +316,7 @@ def gen_cases(tier, rng):
     chunks = [(9, 0, 11), (14, 1, 12), (6, 0, 13), (11, 0, 14), (5, 1, 15), (8, 0, 16)]
     ridx, _ = auto_ridx(chunks, 40)
     for b in BOUNDARIES_PLAIN + BOUNDARIES_META + ([b"B" * 300] if thorough else []):
-        for style in (list(STYLES) if (thorough or b in (BOUNDARIES_PLAIN[0], BOUNDARIES_META[0])) else ["plain", "both"]):
+        for style in ([k for k in STYLES if k not in LONG_STYLES] if (thorough or b in (BOUNDARIES_PLAIN[0], BOUNDARIES_META[0])) else ["plain", "both"]):
             for quoted in (False, True):
                 hdrs, body = response(chunks, ridx, 40, "mp", boundary=b, style=style, quoted=quoted)
                 for parts in ("w", "k1", "k7", "all1"):
@@ -342,7 +346,7 @@ def gen_cases(tier, rng):
             chunks[0] = (chunks[0][0], 0, chunks[0][2])
         ridx, _ = auto_ridx(chunks, 512)
         mode = "plain" if len(runs_of(ridx, chunks)) == 1 else "mp"
-        hdrs, body = response(chunks, ridx, 512, mode, boundary=rng.choice(BOUNDARIES_PLAIN), style=rng.choice(list(STYLES)))
+        hdrs, body = response(chunks, ridx, 512, mode, boundary=rng.choice(BOUNDARIES_PLAIN), style=rng.choice([k for k in STYLES if k not in LONG_STYLES]))
         plist = ["k16384", "k16383", "k4096"]
         for _ in range(3 if not thorough else 8):
             cuts, p = [], 0
@@ -448,6 +452,43 @@ def gen_cases(tier, rng):
                          doff=64, hdrs=hdrs, opts=["auto"], kind="bigpart", group="bigpart:%d" % bi)
                 c.expect = expect_for(c)
                 cases.append(c)
+    # ---- (K) spelling of the Content-Type header line (HTTP/2 lower case, odd capitalisation, spaces after the colon)
+    chunks = [(9, 0, 11), (14, 1, 12), (6, 0, 13), (11, 0, 14)]
+    ridx, _ = auto_ridx(chunks, 40)
+    for ni, name in enumerate([b"content-type: ", b"Content-type: ", b"CONTENT-TYPE: ", b"Content-Type:", b"Content-Type:    ",
+                               b"content-type:\t", b"cOnTeNt-TyPe: ", b"X-Other: 1; Content-Type: "]):
+        for quoted in (False, True):
+            b = b"ctName_%d" % ni
+            _, body = response(chunks, ridx, 40, "mp", boundary=b)
+            hdrs = [b"HTTP/1.1 206 Partial Content\r\n", ct_header(b, quoted, name=name), b"\r\n"]
+            for parts in ("w", "k1", "k13"):
+                c = Case("ctname=%s:q=%d:%s" % (name.hex(), quoted, parts), chunks, ridx, body, parts, hdrs=hdrs, opts=["auto"],
+                         kind="ctname", group="ctname:%d:%d" % (ni, quoted))
+                c.expect = expect_for(c)
+                cases.append(c)
+    # ---- (L) part headers longer than 512 / 1024 bytes, cut inside the header before and after those offsets, followed
+    # by a fragment of 1 / 100 bytes / all the rest
+    chunks = [(30, 0, 1301), (20, 1, 1302), (200, 0, 1303), (25, 0, 1304)]
+    ridx, _ = auto_ridx(chunks, 64)
+    for style in LONG_STYLES:
+        b = b"longHdr"
+        hdrs, body = response(chunks, ridx, 64, "mp", boundary=b, style=style)
+        hs = body.index(b"\r\n--" + b + b"\r\n", 10)
+        he = body.index(prng(chunks[2][2], 16))
+        rel = sorted({1, 100, 400, 510, 511, 512, 513, 514, 600, 1000, 1023, 1024, 1025, he - hs - 5, he - hs - 1, he - hs, he - hs + 2})
+        for k in [x for x in rel if 0 < x <= he - hs + 4]:
+            T = hs + k
+            for nxt in (1, 100, "rest"):
+                cuts = [T] + ([] if nxt == "rest" else [T + nxt])
+                c = Case("longhdr:%s:k=%d:next=%s" % (style, k, nxt), chunks, ridx, body, "c" + ".".join(map(str, cuts)), doff=64,
+                         hdrs=hdrs, opts=["auto"], kind="longhdr", group="longhdr:" + style)
+                c.expect = expect_for(c)
+                cases.append(c)
+        for parts in ("w", "k1", "k100") + (("all1",) if thorough else ()):
+            c = Case("longhdr:%s:%s" % (style, parts), chunks, ridx, body, parts, doff=64, hdrs=hdrs, opts=["auto"], kind="longhdr",
+                     group="longhdr:" + style)
+            c.expect = expect_for(c)
+            cases.append(c)
     # ---- (H) sessions: broken transfer -> zck_dl_reset -> retry
     cases += gen_sessions(tier, rng)
     return cases
